@@ -367,7 +367,8 @@ def fd_check(model, H, q, dt, dirs):
     if rich > 1e-4 * gs:
         return None
     # models with an internal root solve (J2: residual tolerance 1e-10 * Y0) deliver the stress to that tolerance, not to rounding
-    tol = 64 * EPS * S1 * Wmax / h + rich / 8 + (1e-12 + model.solver_tol) * gs
+    # (the energy itself is evaluated with cancellation between terms larger than |W|, hence the generous rounding factor)
+    tol = 512 * EPS * S1 * Wmax / h + rich / 8 + (1e-11 + model.solver_tol) * gs
     err = float(onp.abs(G[1] - g).max()) if onp.all(onp.isfinite(g)) else float('inf')
     info.update(grad_err=err, grad_tol=tol, grad_scale=gs)
     if not err <= tol:
@@ -543,7 +544,7 @@ def correspondence(ctx, model_ok, only_l2=False):
     d1 = materials_layer(ctx)
     d2 = tensor_jvp_layer(ctx)
     ctx.count('distinct_nontrivial', d1 + d2 + ctx.counts.get('model_vs_impl_comparisons', 0))
-    ctx.cov['fd'] = 'stencil 6th order, steps h and 2h (h = 1e-3, 4e-4 for models with a switch); tolerance 64 eps S |W|max/h^k + |FD_h - FD_2h|/8 + 1e-12 (1e-10) scale'
+    ctx.cov['fd'] = 'stencil 6th order, steps h and 2h (h = 1e-3, 4e-4 for models with a switch); tolerance 512 eps S^k |W|max/h^k + |FD_h - FD_2h|/8 + (1e-11 | 1e-9 + solver tolerance) * scale'
 
 
 def search(ctx, reasons):
@@ -559,7 +560,7 @@ def search(ctx, reasons):
 
 def finding_fails(ctx, f):
     import numpy as onp
-    w = f['witness']
+    w = f.get('witness_tensor') or f['witness']      # F13 is replayed on pow_symm's own JVP (its material witness also trips F14)
     if w.get('layer') == 'material':
         res = replay_material(w)
         return bool(res is not None and res[0])
